@@ -22,7 +22,7 @@ OPTIONS = {"project": "W", "src_dir": "./src", "output_dir": "./doc", "preproces
 
 
 def use_form(scope, name):
-    for u in scope["uses"]:
+    for u in list(scope["uses"]) + list((scope.get("block") or {}).get("uses") or []):
         if u.get("only") is not None:
             for l, r in u["only"]:
                 if l.lower() == name or r.lower() == name:
@@ -67,7 +67,8 @@ def check_dump(world, dump):
             findings.append(("reference-model/scope-missing", "scope %s not found by FORD" % name))
             local_diffs += 1
             continue
-        imp = usemodel.imports(scope["uses"], ford_exports)
+        scope_uses = list(scope["uses"]) + list((scope.get("block") or {}).get("uses") or [])
+        imp = usemodel.imports(scope_uses, ford_exports)
         expected = usemodel.merge(imp, usemodel.own_table(scope))
         actual = strip(dump["tables"][name])
         for kind, c, n in diff_tables(expected, actual):
@@ -134,7 +135,7 @@ def check_dump(world, dump):
                 if e.get("comp_type"):
                     exp_refs.add((name, "comp", "%s%%k_%s" % (e["name"].lower(), e["name"].lower()),
                                   tuple(t["types"][e["comp_type"].lower()])))
-            for c in scope.get("calls", []):
+            for c in list(scope.get("calls", [])) + list((scope.get("block") or {}).get("calls") or []):
                 exp_refs.add((name, "call", "", tuple(t["procs"][c.lower()])))
             if is_mod:
                 inner = usemodel.inner_scopes({"mods": [scope]}, g_exports, g_tables)
